@@ -25,6 +25,8 @@ Next ==
   \/ \E P \in 1..2 : Do("saveload", <<P>>, SysSaveLoad(w, P))
   \/ \E m \in Mods \ {1, 2}, v \in {-1, 0, 700, 1024, 1025} : Do("set_volume", <<m, v>>, SysSetVol(w, m, v))
   \/ Do("failed_load", <<>>, SysFailedLoad(w))
+  \/ \E n \in 0..(NM + 1), fail \in BOOLEAN : Do("bulk_edit", <<1, n, fail>>, SysBulk(w, 1, n, fail))
+  \/ \E src \in Mods \ {1, 2}, dst \in Mods \ {1, 2} : src # dst /\ w.p.parent[dst] = 0 /\ Do("clone_module", <<src, dst>>, SysClone(w, src, dst))
   \* pattern 1 is a Pattern with a note cell; even pattern ids stand for PatternClone objects
   \/ \E q \in {1}, m \in Mods : Do("set_note_mod", <<q, m>>, Lift(w, SetNoteMod(w.p, q, m)))
   \/ \E q \in {1} : Do("get_note_mod", <<q>>, Lift(w, GetNoteMod(w.p, q)))
